@@ -201,7 +201,7 @@ fn fault_spans(printed: &Printed, fault: &Fault) -> Vec<std::ops::Range<usize>> 
                 v.push(g.clone());
             }
             v.push(printed.bind_spans[&(obj.clone(), *bind)].clone());
-            if fault.kind.starts_with("duplicate") && *bind > 0 {
+            if (fault.kind.starts_with("duplicate") || fault.kind == "nested-dynamic-in-group") && *bind > 0 {
                 v.push(printed.bind_spans[&(obj.clone(), bind - 1)].clone());
             }
             v
